@@ -628,6 +628,10 @@ pub fn judge(c: &MsgCase, line: &str) -> Result<CaseInfo, String> {
                 let digits: String = b.chars().take_while(|ch| ch.is_ascii_digit()).collect();
                 let k: usize = digits.parse().unwrap_or(usize::MAX);
                 if let (Some(t), Some(v)) = (c.pattern.tys.get(k), tuple.get(k)) {
+                    if *t == Ty::NoDbg {
+                        // a value without Debug cannot be shown; its position is listed (checked above)
+                        continue;
+                    }
                     let actual = t.debug_string(v);
                     // a value compared through AsRef<str> is shown through that view
                     let coerced = match (t, v) {
